@@ -271,3 +271,62 @@ def fkf(h):
     h.check('one attitude per sample', h.shape_is(Q, (2, 4)))
     h.check('Q[0] unit', h.is_unit(Q[0], tol=1e-9))
     h.check('Q[1] unit', h.is_unit(Q[1], tol=1e-6))
+
+
+# ---- batch constructors at exact canonical poses ----------------------------------------------------------------------
+# concrete rational attitudes (level, level with heading, upside-down, upside-down with heading, pitched, generic) with symbolic
+# sensor scales: the special-case branches of the initial-attitude code (half-turns, zero pitch/roll) are taken exactly
+from fractions import Fraction as _Fr
+POSES = {
+    'level': (1, 0, 0, 0), 'level-heading': (_Fr(4, 5), 0, 0, _Fr(3, 5)), 'upside-down': (0, 1, 0, 0),
+    'upside-down-heading': (0, _Fr(3, 5), _Fr(4, 5), 0), 'pitched': (_Fr(4, 5), 0, _Fr(3, 5), 0),
+    'generic': (_Fr(1, 5), _Fr(2, 5), _Fr(2, 5), _Fr(4, 5)),
+}
+
+
+def _rows_ok(h, tag, Q, n):
+    Q = np.array(Q)
+    h.check(f'{tag}: one attitude per sample ({n} x 4)', h.shape_is(Q, (n, 4)))
+    if Q.shape == (n, 4):
+        for i in range(n):
+            h.check(f'{tag}: row {i} is a unit quaternion', h.is_unit(Q[i]))
+
+
+def _mk_pose(pname, q):
+    @harness(f'C03/batch.{pname}', tiers=('thorough',) if pname in ('pitched', 'generic') else ('quick', 'thorough'), functions=[FF + 'mahony:Mahony._compute_all', FF + 'fourati:Fourati._compute_all', FF + 'aqua:AQUA._compute_all',
+                                               FF + 'fqa:FQA.estimate', FF + 'triad:TRIAD.estimate', FF + 'tilt:Tilt._compute_all',
+                                               FF + 'oleq:OLEQ._compute_all', 'ahrs.common.orientation:am2q', 'ahrs.common.orientation:dcm2quat',
+                                               'ahrs.common.orientation:ecompass', 'ahrs.common.orientation:chiaverini'],
+             max_paths=12, bounds='N = 2 identical samples at one exact rational attitude; symbolic sensor scales', allowed_exc=())
+    def hf(h, q=q, pname=pname):
+        h.definedness = 'assume'
+        s1, s2 = h.real('s1', 0.5, 20.0), h.real('s2', 0.5, 80.0)
+        h.pool(s1, s2)
+        qq = np.array(q, dtype=object) if h.sym else np.array([float(x) for x in q])
+        R = rot.R_of_q(qq)
+        gN = np.array([0, 0, 1], dtype=object) if h.sym else np.array([0.0, 0.0, 1.0])
+        mN = np.array([_Fr(3, 5), 0, _Fr(4, 5)], dtype=object) if h.sym else np.array([0.6, 0.0, 0.8])
+        a, m = s1 * (R.T @ gN), s2 * (R.T @ mN)
+        A, M = np.array([a, a]), np.array([m, m])
+        G = np.array([[0.1, -0.2, 0.3], [0.1, -0.2, 0.3]])
+        mref = np.array([0.6, 0.0, 0.8])
+        for tag, mk in (('Mahony(gyr, acc, mag)', lambda: flt.Mahony(G.copy(), A.copy(), M.copy()).Q),
+                        ('Mahony(gyr, acc)', lambda: flt.Mahony(G.copy(), A.copy()).Q),
+                        ('Fourati', lambda: flt.Fourati(G.copy(), A.copy(), M.copy()).Q),
+                        ('AQUA(acc, mag)', lambda: flt.AQUA(acc=A.copy(), mag=M.copy()).Q),
+                        ('Tilt(acc, mag)', lambda: flt.Tilt(A.copy(), M.copy()).Q),
+                        ('TRIAD quaternion', lambda: flt.TRIAD(A.copy(), M.copy(), representation='quaternion').A)) + \
+                ((('OLEQ N=2', lambda: flt.OLEQ(A.copy(), M.copy(), weights=np.array([1.0, 0.0]), magnetic_ref=mref).Q),)
+                 if pname == 'level' else ()):
+            try:
+                Q = mk()
+            except (ValueError, TypeError, ZeroDivisionError, IndexError) as e:
+                h.check(f'{tag}: returns (raised {type(e).__name__}: {str(e)[:60]})', h.false())
+                continue
+            _rows_ok(h, tag, Q, 2)
+    hf.__doc__ = f"batch constructors over N = 2 samples at the exact pose '{pname}': one finite unit quaternion per sample"
+    return hf
+
+
+for _pn, _q in POSES.items():
+    _mk_pose(_pn, _q)
